@@ -232,7 +232,13 @@ func (r *Run) Finish() int {
 			for i := 0; i < 3; i++ {
 				res := RunOne(v.Kind, v.Case)
 				if !sameClass(res, c) {
-					fmt.Printf("HARNESS-ERROR property=%s class=%s is not reproducible (re-run %d gave %v)\n", r.Prop, c, i+1, classesOf(res))
+					if len(classesOf(res)) > 0 {
+						// the witness fails again, under another class (e.g. mast's concurrent flush reacts to an
+						// injected fault in a scheduling-dependent way): still a failing, replayable case
+						fmt.Printf("note: property=%s class=%s: re-run %d of the witness failed as %v\n", r.Prop, c, i+1, classesOf(res))
+						continue
+					}
+					fmt.Printf("HARNESS-ERROR property=%s class=%s is not reproducible (re-run %d gave no violation)\n", r.Prop, c, i+1)
 					exit = 2
 				}
 			}
